@@ -12,6 +12,7 @@ import (
 	"encoding/binary"
 	"fmt"
 	"io"
+	"strings"
 	"testing"
 
 	"github.com/datastax/go-cassandra-native-protocol/datatype"
@@ -56,7 +57,7 @@ func c03Frames(rt *rapid.T) {
 	var stream bytes.Buffer
 	var frames []*frame.Frame
 	var lens []int
-	prefixParts, edited := 0, 0
+	prefixParts, edited, refused := 0, 0, 0
 	for i := 0; i < n; i++ {
 		fc := gen.Frame(rt, v, comp != compNone, genOpts())
 		prefixParts += fc.Optional
@@ -105,6 +106,19 @@ func c03Frames(rt *rapid.T) {
 			}
 			return enc, true
 		}
+		// now and then the codec is first asked to encode a frame it must refuse half-way through its body (a nil
+		// [value] after a regular one): whatever it had written so far must not leak into the frames that follow
+		if rapid.IntRange(0, 3).Draw(rt, fmt.Sprintf("refusedFirst%d", i)) == 0 {
+			bad := frame.NewFrame(v, 1, &message.Query{Query: "refused " + strings.Repeat("!", 64), Options: &message.QueryOptions{
+				Consistency: primitive.ConsistencyLevelOne, PositionalValues: []*primitive.Value{primitive.NewValue([]byte("written before the refusal")), nil}}})
+			if comp != compNone {
+				bad.SetCompress(true)
+			}
+			if _, err := encodeFrame(codec, bad); err == nil {
+				rt.Fatalf("harness defect: a QUERY with a nil positional value was encoded")
+			}
+			refused++
+		}
 		enc, ok := encodeAndCheck("first encoding")
 		if !ok {
 			return
@@ -113,6 +127,7 @@ func c03Frames(rt *rapid.T) {
 		// encoding a frame, this field is not read but is rather dynamically computed from the actual body length")
 		if rapid.IntRange(0, 2).Draw(rt, fmt.Sprintf("edit%d", i)) == 0 {
 			f := fc.Frame
+			var ignoredNamed *message.QueryOptions
 			var edits []string
 			if f.Header.IsResponse {
 				edits = append(edits, "tracingId")
@@ -124,7 +139,22 @@ func c03Frames(rt *rapid.T) {
 				edits = append(edits, "payload")
 			}
 			edits = append(edits, "message")
+			// documented: "It is illegal to use both positional and named values at the same time. If this happens,
+			// positional values will be used and named values will be silently ignored." - lengths must follow suit
+			var opts *message.QueryOptions
+			switch m := f.Body.Message.(type) {
+			case *message.Query:
+				opts = m.Options
+			case *message.Execute:
+				opts = m.Options
+			}
+			if opts != nil && len(opts.PositionalValues) > 0 && gen.AtLeast(v, 3) {
+				edits = append(edits, "bothValues", "bothValues")
+			}
 			switch rapid.SampledFrom(edits).Draw(rt, fmt.Sprintf("edit%d/what", i)) {
+			case "bothValues":
+				opts.NamedValues = map[string]*primitive.Value{"ignored": primitive.NewValue(gen.Blob(rt, "ignoredNamedValue", 200)), "n2": primitive.NewNullValue()}
+				ignoredNamed = opts
 			case "tracingId":
 				if f.Body.TracingId == nil {
 					f.SetTracingId(gen.UUID(rt, "editTracingId"))
@@ -152,6 +182,9 @@ func c03Frames(rt *rapid.T) {
 			}
 			if enc, ok = encodeAndCheck("second encoding after an edit"); !ok {
 				return
+			}
+			if ignoredNamed != nil {
+				ignoredNamed.NamedValues = nil // what the decoder is expected to deliver: the positional values only
 			}
 			edited++
 		}
@@ -209,7 +242,7 @@ func c03Frames(rt *rapid.T) {
 	h := stats.Hash(stream.Bytes())
 	rec.Case(prefixParts > 0 || n >= 2, h, func() string {
 		return fmt.Sprintf("stream of %d frames v=%d comp=%s sizes=%v first=%s", n, v, comp, lens, canon.Render(frames[0]))
-	}, fmt.Sprintf("nframes:%d", n), fmt.Sprintf("version:%d", v), "comp:"+comp.String(), "source:"+srcKind, fmt.Sprintf("re-encoded-after-edit:%v", edited > 0))
+	}, fmt.Sprintf("nframes:%d", n), fmt.Sprintf("version:%d", v), "comp:"+comp.String(), "source:"+srcKind, fmt.Sprintf("re-encoded-after-edit:%v", edited > 0), fmt.Sprintf("refused-encodes-in-between:%v", refused > 0))
 }
 
 func TestC03Frames(t *testing.T) { rapid.Check(t, c03Frames) }
